@@ -94,11 +94,21 @@ pub fn exec(case: &[i64]) -> Outcome {
     let mut rels: Vec<Vec<(bool, U, i64)>> = Vec::new();
     for _ in 0..5 { let n = take1(&mut v).unwrap(); let mut l = Vec::new(); for _ in 0..n { let t = take1(&mut v).unwrap(); let u = take_u(&mut v); if t == 0 { l.push((true, u, take1(&mut v).unwrap())); } else { l.push((false, u, -1)); } } rels.push(l); }
     let n = take1(&mut v).unwrap(); let mut svc = Vec::new(); for _ in 0..n { svc.push((take_u(&mut v), take1(&mut v).unwrap())); }
-    for (u, x) in &vm { gen_one(&mut w, *u, *x, MethodScope::VerificationMethod).await; }
+    // payloads >= 500 are KEYLESS methods (no key in the stores: e.g. the controller's key listed in this document): written into the JSON below
+    for (u, x) in &vm { if *x < 500 { gen_one(&mut w, *u, *x, MethodScope::VerificationMethod).await; } }
     for (ri, l) in rels.iter().enumerate() { for (e, u, x) in l { if *e { gen_one(&mut w, *u, *x, MethodScope::VerificationRelationship(RELS[ri])).await; } } }
     // references (dangling ones too) and services: edit the JSON so that the order inside each set is the case's order
     let mut j: serde_json::Value = serde_json::to_value(&w.doc).unwrap();
     let names = ["authentication", "assertionMethod", "keyAgreement", "capabilityDelegation", "capabilityInvocation"];
+    // a general method of ANOTHER DID (the controller's key listed in this document): generated for real above, then re-labelled
+    { let generated: Vec<serde_json::Value> = j.get("verificationMethod").and_then(|a| a.as_array()).cloned().unwrap_or_default(); let mut g = generated.into_iter(); let mut out = Vec::new();
+      for (u, x) in vm.iter() {
+        if *x >= 500 { let mut m = c04::meth_json(*u, *x); m["controller"] = serde_json::json!(c04::DIDS[u.d as usize]); m["publicKeyMultibase"] = serde_json::json!(format!("z{}", x.to_string().replace('0', "A")));   // decodable base58: the method digest of such a method can be computed
+          out.push(m); w.data_of_id.insert(c04::ustr(*u), *x); continue; }
+        let mut m = g.next().unwrap();
+        if u.d != 1 { m["id"] = serde_json::json!(c04::ustr(*u)); m["controller"] = serde_json::json!(c04::DIDS[u.d as usize]); w.data_of_id.insert(c04::ustr(*u), *x); }
+        out.push(m); }
+      if !out.is_empty() { j["verificationMethod"] = serde_json::Value::Array(out); } }
     for (ri, l) in rels.iter().enumerate() {
       let existing: Vec<serde_json::Value> = j.get(names[ri]).and_then(|a| a.as_array()).cloned().unwrap_or_default();
       let mut out = Vec::new(); let mut emb = existing.into_iter();
@@ -122,8 +132,10 @@ pub fn exec(case: &[i64]) -> Outcome {
       w.ctl.active.set(true);
       let r = w.doc.generate_method(&w.storage, JwkMemStore::ED25519_KEY_TYPE, JwsAlgorithm::EdDSA, if no_id { None } else { Some(&frag) }, scope_of(sc)).await;
       w.ctl.active.set(false); w.ctl.strip_kid.set(false);
-      if before.resolve_method(frag.as_str(), None).is_none() { w.data_of_id.insert(c04::ustr(u), k); }
-      (r.map(|_| ()), frag)
+      // the new method is addressed by its FULL id from here on: a bare fragment may also name a method of another DID listed earlier
+      let full = if no_id { frag.clone() } else { c04::ustr(u) };
+      if before.resolve_method(full.as_str(), None).is_none() { w.data_of_id.insert(c04::ustr(u), k); }
+      (r.map(|_| ()), full)
     } else {
       let u = take_u(&mut v);
       let bits = take_lp(&mut v).unwrap(); *w.ctl.script.borrow_mut() = bits.to_vec();
@@ -131,7 +143,7 @@ pub fn exec(case: &[i64]) -> Outcome {
       w.ctl.active.set(true);
       let r = w.doc.purge_method(&w.storage, &id).await;
       w.ctl.active.set(false);
-      (r, format!("#f{}", u.f))
+      (r, c04::ustr(U { d: u.d, r: 0, f: u.f }))
     };
     let kind = match &res { Ok(()) => 0, Err(StorageError::UndoOperationFailed { .. }) => 2, Err(_) => 1 };
     let mut obs = vec![kind];
@@ -185,6 +197,15 @@ pub fn gen(rng: &mut Rng, thorough: bool, sink: &mut Sink) {
   let mut r = e(); r[0].push((true, u(1, 0, 1), 1)); shapes.push(Start { vm: vec![], rels: r, svc: vec![] });
   let mut r = e(); r[0].push((false, u(1, 0, 1), -1)); r[1].push((true, u(1, 0, 2), 2)); r[2].push((false, u(1, 0, 3), -1)); r[3].push((false, u(1, 0, 1), -1));
   shapes.push(Start { vm: vec![(u(1, 0, 1), 1)], rels: r, svc: vec![(u(1, 0, 4), 30)] });
+  // a general method of another DID with the fragment that is about to be generated / purged (listed before and after an own method)
+  shapes.push(Start { vm: vec![(u(2, 0, 1), 1)], rels: e(), svc: vec![] });
+  shapes.push(Start { vm: vec![(u(2, 0, 1), 1), (u(1, 0, 2), 2), (u(2, 0, 3), 3)], rels: e(), svc: vec![] });
+  // ... and the same with a KEYLESS foreign method (payload >= 500), whose digest is free in the key-id store
+  shapes.push(Start { vm: vec![(u(2, 0, 1), 501)], rels: e(), svc: vec![] });
+  shapes.push(Start { vm: vec![(u(2, 0, 1), 501), (u(1, 0, 2), 2), (u(2, 0, 5), 505)], rels: e(), svc: vec![] });
+  // references that spell an existing method's DID and fragment WITH a path / query (not that method's id), next to a plain one
+  let mut r = e(); r[0].push((false, u(1, 1, 1), -1)); r[1].push((false, u(1, 0, 1), -1)); r[2].push((false, u(1, 2, 1), -1)); shapes.push(Start { vm: vec![(u(1, 0, 1), 1)], rels: r, svc: vec![] });
+  let mut r = e(); r[0].push((false, u(1, 2, 2), -1)); r[4].push((false, u(1, 1, 2), -1)); shapes.push(Start { vm: vec![(u(1, 0, 1), 1), (u(1, 0, 2), 2)], rels: r, svc: vec![] });
   let masks = |n: usize| -> Vec<Vec<i64>> { (0..(1u32 << n)).map(|m| (0..n).map(|i| ((m >> i) & 1) as i64).collect()).collect() };
   for s in &shapes {
     let head = { let mut c = c04::enc_start(s, &[]); c.pop(); c };   // drop the query count
